@@ -102,7 +102,7 @@ func evalC04(c c04Case, o *Obs) error {
 	// public line: follows the path through non-hardened steps from the neutered key
 	var pubK *hdkeychain.ExtendedKey
 	var pubR *refKey
-	sawLZ := false
+	sawLZ, sawLZ2 := false, false
 	for step := 0; ; step++ {
 		where := fmt.Sprintf("seed %x net %s path %v[:%d]", []byte(c.Seed), nets[ni].Name, c.Path, step)
 		if err := compareNode(k, r, ni, where); err != nil {
@@ -125,6 +125,10 @@ func evalC04(c c04Case, o *Obs) error {
 		if pad32(r.Priv)[0] == 0 {
 			sawLZ = true
 			o.Class("C04:node-with-leading-zero-scalar")
+			if pad32(r.Priv)[1] == 0 {
+				sawLZ2 = true
+				o.Class("C04:node-with-two-leading-zero-bytes")
+			}
 		}
 		if step == len(c.Path) {
 			break
@@ -157,6 +161,9 @@ func evalC04(c c04Case, o *Obs) error {
 			if sawLZ {
 				o.Class("C04:hardened-step-after-leading-zero-scalar")
 			}
+			if sawLZ2 {
+				o.Class("C04:hardened-step-after-two-leading-zero-bytes")
+			}
 			pubK, pubR = nil, nil
 		} else {
 			o.Class("C04:normal-step")
@@ -183,7 +190,7 @@ func evalC04(c c04Case, o *Obs) error {
 
 // refChildScalarHasLZ reports whether child i of r has a private scalar with a leading
 // zero byte (cheap: no point multiplication).
-func refChildScalarHasLZ(r *refKey, parentPub []byte, i uint32) bool {
+func refChildScalarHasLZ(r *refKey, parentPub []byte, i uint32, zeroBytes int) bool {
 	var data []byte
 	if i >= 0x80000000 {
 		data = append([]byte{0}, pad32(r.Priv)...)
@@ -199,7 +206,7 @@ func refChildScalarHasLZ(r *refKey, parentPub []byte, i uint32) bool {
 	}
 	ck := il.Add(il, r.Priv)
 	ck.Mod(ck, curveN)
-	return ck.BitLen() <= 248 && ck.Sign() != 0
+	return ck.BitLen() <= 256-8*zeroBytes && ck.Sign() != 0
 }
 
 func genIndex(t *rapid.T) uint32 {
@@ -248,10 +255,16 @@ func genC04(t *rapid.T) c04Case {
 			if ok {
 				start := rapid.Uint32().Draw(t, "lz_start")
 				pub := r.pubBytes()
-				for d := uint32(0); d < 3000; d++ {
-					if refChildScalarHasLZ(r, pub, start+d) {
+				// usually one leading zero byte (1 in 256); sometimes two (1 in 65536 - the
+				// case a "pad with a single zero byte" regression needs)
+				zb, tries := 1, uint32(3000)
+				if rapid.IntRange(0, 5).Draw(t, "lz2") == 0 {
+					zb, tries = 2, 400000
+				}
+				for d := uint32(0); d < tries; d++ {
+					if refChildScalarHasLZ(r, pub, start+d, zb) {
 						c.Path = append(c.Path, start+d, 0x80000000+uint32(rapid.IntRange(0, 3).Draw(t, "h")), genIndex(t))
-						c.Tag = "directed-leading-zero"
+						c.Tag = fmt.Sprintf("directed-%d-leading-zero-bytes", zb)
 						break
 					}
 				}
@@ -347,8 +360,25 @@ func TestC04(t *testing.T) {
 				kC04.One(ev, c)
 			}
 		}
+		// deterministic directed cases: children whose scalar has two leading zero bytes (hardened and normal),
+		// followed by hardened and normal steps - found with the reference (about 65536 HMACs each)
+		if shard == 0 {
+			seed := bytes.Repeat([]byte{0x5a}, 32)
+			if r, err := refMaster(seed, 0); err == nil {
+				pub := r.pubBytes()
+				for _, base := range []uint32{0, 0x80000000} {
+					for d := uint32(0); d < 600000; d++ {
+						if refChildScalarHasLZ(r, pub, base+d, 2) {
+							kC04.One(ev, c04Case{Seed: seed, Net: 0, SetNet: -1, Path: []uint32{base + d, 0x80000000, 1, 0x80000001}, Tag: "two-leading-zero-bytes"})
+							kC04.One(ev, c04Case{Seed: seed, Net: 1, SetNet: -1, Path: []uint32{base + d, 7, 0xffffffff}, Tag: "two-leading-zero-bytes"})
+							break
+						}
+					}
+				}
+			}
+		}
 		kC04.Run(t, ev, perShard(pick(600, 60000)))
 		ev.requireClasses("C04:illegal-seed-length", "C04:depth-255", "C04:hardened-step", "C04:normal-step",
-			"C04:hardened-step-after-leading-zero-scalar", "C04:setnet", "C04:net=simnet", "C04:seedlen=16", "C04:seedlen=64")
+			"C04:hardened-step-after-leading-zero-scalar", "C04:hardened-step-after-two-leading-zero-bytes", "C04:setnet", "C04:net=simnet", "C04:seedlen=16", "C04:seedlen=64")
 	})
 }
